@@ -17,7 +17,8 @@ extract_reqs, loop bound of req_commit) and runs the model with that variant; an
 (violation without input).
 
 TIE: correspondence.  Random and directed histories of iput/iget/bput (all forms incl. varn, multi-record, typed and
-flexible with vector buffers, imap) and wait/wait_all/cancel (all at once, by kind, subsets, permuted, NULL and duplicated
+flexible with vector buffers, imap; a profile of interleaving requests strided in a slow dimension, so that the
+flatten/sort/merge path vars_flatten + merge_requests is exercised with count >= 3) and wait/wait_all/cancel (all at once, by kind, subsets, permuted, NULL and duplicated
 ids, different request counts per process, collective and independent) run on the real library through
 harness/pnc_impl.c and on the model through coq/NbRun.v (Eval vm_compute); compared: request ids, return codes, statuses,
 ids after the call, inq_nreqs, numrecs, read buffers and put buffers incl. guard zones, file bytes of written elements.
@@ -35,8 +36,8 @@ ASSUMPTIONS = [
     'never-written bytes are undefined and never compared',
 ]
 
-MIX_QUICK = [('mixed', 150, {}), ('abuf', 30, {'profile': 'abuf'}), ('big', 5, {'big': True})]
-MIX_THOROUGH = [('mixed', 2600, {}), ('abuf', 500, {'profile': 'abuf'}), ('big', 60, {'big': True})]
+MIX_QUICK = [('mixed', 140, {}), ('strided', 30, {'profile': 'strided'}), ('abuf', 30, {'profile': 'abuf'}), ('big', 5, {'big': True})]
+MIX_THOROUGH = [('mixed', 2400, {}), ('strided', 400, {'profile': 'strided'}), ('abuf', 500, {'profile': 'abuf'}), ('big', 60, {'big': True})]
 
 
 def run(ctx):
